@@ -370,7 +370,7 @@ PROPS = {
                 native_timeout=2400),
     'C17': dict(level='proof',
                 technique='union of the panic / overflow / bounds / unwinding obligations of every complete Kani harness and Verus unit of the other properties, run under the weakest preconditions; process-level native stand-in for exit codes',
-                claim='For each entry point listed in the evidence (mnemonic phrases of 0..40 words, length table, Mnemonic::random, path components up to 12 characters, signature text up to 140 characters, Signature::v with the deserialization invariant, private-key bytes, uintN/intN/bytesN values, JSON numbers, vanity prefix text and matching, RLP lengths of every size) Kani\'s default checks (panic, unwrap, arithmetic overflow, out-of-bounds, invalid shift, pointer validity) and unwinding assertions, resp. Verus\' overflow / bounds / termination obligations, are discharged over the full symbolic domain of the harness. Bounded (native): about 230 malformed inputs through the real CLI end in an ordinary error (non-zero exit that is not a panic, message, no output), 64 array suffixes are accepted.',
+                claim='For each entry point listed in the evidence (mnemonic phrases of 0..40 words, length table, Mnemonic::random, path components up to 12 characters, signature text up to 140 characters, Signature::v with the deserialization invariant, private-key bytes, uintN/intN/bytesN values, JSON numbers, vanity prefix text and matching, RLP lengths of every size) Kani\'s default checks (panic, unwrap, arithmetic overflow, out-of-bounds, invalid shift, pointer validity) and unwinding assertions, resp. Verus\' overflow / bounds / termination obligations, are discharged over the full symbolic domain of the harness. Bounded (native): about 250 malformed inputs through the real CLI end in an ordinary error (non-zero exit that is not a panic, message, no output), 64 array suffixes are accepted; TERMINATION is observed natively only: every evaluation of the typed-data code on the 21840 enumerated type graphs (incl. self-, mutually- and indirectly recursive ones) and ~3700 non-conforming documents, and every CLI child process, runs under a watchdog that reports the input on which the code did not return (60 s library / 600 s process).',
                 note='Not decided here: the digest CLI argument (ethdigest FromStr), JSON nesting up to 128 (serde_json), worker counts (threads), the mapping of errors to exit status in main.rs and termination of the vanity search are process / dependency level and only exercised by the native CLI stand-in; typed-data type strings and hex input are native bounded stand-ins (C08, C19).',
                 native_timeout=2400, jobs=16),
     'C09': dict(level='proof',
@@ -412,7 +412,7 @@ PROPS = {
     'C12': dict(level='proof',
                 technique='Kani/CBMC contracts on the real rand::get_entropy and Mnemonic::random with getentropy(3) as a fill-or-fail environment contract',
                 claim='For every requested length (19 lengths incl. all of 11..25) Mnemonic::random succeeds iff the length is supported and the OS source succeeds, takes exactly 4n/3 bytes from the source, and every entropy byte of the result is the byte the source returned at that position; get_entropy is proved to pass exactly its slice and map a negative result to an error.',
-                note='Assumed: getentropy(3) behaves fill-or-fail (environment contract); SHA-256 (callee contract); printing/parsing back is C01. cmd::new::run passing options.length unchanged, "no phrase printed on failure", freshness across invocations and the vanity loop are process/thread level and not decided here (native stand-in nb_random_parses_back only exercises the real OS source 64 times per length).'),
+                note='Assumed: getentropy(3) behaves fill-or-fail (environment contract: fills exactly len bytes and returns 0, or writes nothing, returns -1 and sets errno to ANY error number - so a caller that ignores some failures, e.g. retries EINTR and then gives up silently, is refuted); SHA-256 (callee contract); printing/parsing back is C01. cmd::new::run passing options.length unchanged, "no phrase printed on failure", freshness across invocations and the vanity loop are process/thread level and not decided here (native stand-in nb_random_parses_back only exercises the real OS source 64 times per length).'),
     'C14': dict(level='proof',
                 technique='Kani/CBMC contracts on the real Component::from_str / Display over all strings up to 12 bytes (complete for every u32 value); native bounded stand-ins for Path::from_str and Path::for_index',
                 claim='Component::from_str is proved for every ASCII string of length 0..12 (hence for the canonical text of all 2^32 values, hardened or not): accepted iff decimal index below 2^31, value and hardened marker preserved, everything else rejected without panic; Component Display proved canonical for all values. Path::from_str / Display / for_index are outside CBMC\'s reach (str::split and format! explode) and are covered by bounded stand-ins only: 12 concrete shapes under Kani and native enumeration of 3.3e6 short strings / 80k indices.',
